@@ -52,6 +52,8 @@ inductive Op
   | callZero
   /-- one call; the peer drops the connection while it is in flight -/
   | callDie
+  /-- two callers issue one call each at the same moment (first one first), both wait -/
+  | pair
 deriving DecidableEq, Repr
 
 /-- The kind of call an op issues (`none`: not a call). -/
@@ -60,6 +62,7 @@ def Op.kind? : Op → Option CallKind
   | .callZero => some .zeroDeadline
   | .callDie => some .peerDies
   | .die => none
+  | .pair => none
 
 /-- What the caller of one call sees. `attempt` is the connection attempt whose failure the
 error carries, when the error text identifies it. -/
@@ -88,6 +91,8 @@ system is quiescent again. -/
 inductive Ev
   | call (res : CallRes) (attempts : Nat)
   | die
+  /-- two concurrent calls: what the first and the second caller saw; `attempts` once both are done -/
+  | pair (first second : CallRes) (attempts : Nat)
 deriving DecidableEq, Repr
 
 structure Trace where
